@@ -118,13 +118,33 @@ func (m *Model) PullPositions(ctx context.Context, ops ...resource.ReadOption) <
 		seenAll := false
 		var last *traits.OpenClosePositions
 
-		for change := range m.positions.Pull(ctx) {
+		changes := m.positions.Pull(ctx)
+		if len(m.positions.List()) == 0 {
+			// An empty collection sends no seed values at all, so there will be no LastSeedValue to wait for:
+			// seeding is over already, and the current (empty) value is the seed.
+			seenAll = true
+			if !readRequest.UpdatesOnly {
+				positions := &traits.OpenClosePositions{}
+				responseFilter.Filter(positions)
+				last = positions
+				select {
+				case <-ctx.Done():
+					return
+				case send <- PullOpenClosePositionsChange{Positions: positions, ChangeTime: m.positions.Clock().Now()}:
+				}
+			}
+		}
+
+		for change := range changes {
 			if change.NewValue == nil {
 				delete(all, change.Id)
 			} else {
 				all[change.Id] = change.NewValue.(*traits.OpenClosePosition)
 			}
 
+			if !change.SeedValue {
+				seenAll = true // an update proves that seeding is over
+			}
 			shouldSend := seenAll || (change.LastSeedValue && !readRequest.UpdatesOnly)
 			if change.LastSeedValue {
 				seenAll = true
